@@ -323,7 +323,12 @@ func loadBuiltinFromJSON() error {
 
 		d := NewDefineBuiltinMethod(classDef.Frame, classDef.Class)
 
-		base.BuiltinClasses = append(base.BuiltinClasses, classDef.Class)
+		// the list answers "does this bare class name mean a class of frame
+		// Builtin": a class configured in another frame (ActiveRecord::Base)
+		// must not capture a user class with the same short name
+		if classDef.Frame == "Builtin" {
+			base.BuiltinClasses = append(base.BuiltinClasses, classDef.Class)
+		}
 
 		for _, method := range classDef.InstanceMethods {
 			args := parseArguments(method.Arguments)
